@@ -32,10 +32,12 @@ def C09_full_bound : Prop :=
     `WriteTimeout > 0` arms the timer of `TarsClient.Send`, and the decrement of `queueLen` in
     `doInvoke`'s deferred cleanup is on the same receiver as the increment (`&s.queueLen` both — the
     counter of the proxy the call was made on, not `adp.servantProxy`, the proxy that used the shared
-    adapter last) -/
+    adapter last), and every way out of `doInvoke` and of `doKeepAlive` after the increment of `queueLen`
+    runs the decrement (a `defer` installed before any `return`, or an explicit decrement on the path) -/
 theorem C09_model_applicable :
     Consts.callQueueLenInc = 1 ∧ Consts.callInvokeNumInc = 1 ∧ Consts.callWriteTimeoutOffValue = 0 ∧
-    Consts.callReplyChanCap = 0 ∧ Consts.callQueueLenDecSameReceiver = 1 := by decide
+    Consts.callReplyChanCap = 0 ∧ Consts.callQueueLenDecSameReceiver = 1 ∧
+    Consts.callInvokeSlotReleased = 1 ∧ Consts.callKeepAliveSlotReleased = 1 := by decide
 
 /-- **Lock discipline of the transport client (current tree).**  The model treats
     `connection.close`, `connection.lost` and the non-dialling path of `connection.ReConnect` as atomic
@@ -75,11 +77,13 @@ example : handedDeadline ⟨1, 0, 1, 0, 0, 3000⟩ 10 ⟨false, 0, none, some 50
 
 /-- **C09_cleanup** (inductive invariant; all interleavings, all peer behaviours, any number of
     callers and of ServantProxy objects sharing the adapters).  In every reachable state the `queueLen`
-    of every proxy is the number of ITS calls between `queueLen+1` and the deferred `queueLen-1`, `invokeNum` the number of calls between `preInvoke` and `postInvoke`, every
+    of every proxy is the number of ITS calls between `queueLen+1` and the deferred `queueLen-1` plus the number
+    of keep-alive ticks (`doKeepAlive`) on it that are between theirs, `invokeNum` the number of calls between `preInvoke` and `postInvoke`, every
     entry of a pending-reply table belongs to a call between `resp.Store` and `resp.Delete` that carries
     the entry's id, and every such call is found under its id unless another call shares the id. -/
 theorem C09_cleanup {cfg : Cfg} {ctr : Int} {s : State} (hr : Reachable cfg ctr s) :
-    (∀ p : Nat, qGet s.queueLens p = (s.calls.countP (fun c => c.pc.inQueue && c.par.proxy == p) : Nat)) ∧
+    (∀ p : Nat, qGet s.queueLens p =
+      (s.calls.countP (fun c => c.pc.inQueue && c.par.proxy == p) : Nat) + (s.kaHeld.count p : Nat)) ∧
     s.invokeNum = (s.calls.countP (fun c => c.pc.inInvoke) : Nat) ∧
     (∀ e ∈ s.table, ∃ c, s.calls[e.call]? = some c ∧ c.id = e.id ∧ c.adp = e.adp ∧ c.pc.registered = true) ∧
     (∀ (i : Nat) (c : Call), s.calls[i]? = some c → c.pc.registered = true →
@@ -92,22 +96,39 @@ theorem C09_cleanup {cfg : Cfg} {ctr : Int} {s : State} (hr : Reachable cfg ctr 
     manager and its adapters, all interleavings of their calls).  The `queueLen` of proxy `p` counts
     exactly the calls made ON `p` that are between their increment and their deferred decrement —
     calls of other proxies that run through the same adapter, before, during or after, do not move it;
-    it is never negative; and once every call made on `p` has returned (or has not started) it is 0,
-    whatever the calls of the other proxies are doing. -/
+    it is never negative; and once every call made on `p` has returned (or has not started) and no
+    keep-alive tick of `p` is between its increment and its deferred decrement it is 0, whatever the
+    calls of the other proxies are doing.  Keep-alive ticks are part of the conservation: each tick in
+    flight accounts for exactly one, at any moment and however often ticks were admitted or refused before. -/
 theorem C09_counters_per_proxy {cfg : Cfg} {ctr : Int} {s : State} (hr : Reachable cfg ctr s) (p : Nat) :
-    qGet s.queueLens p = (s.calls.countP (fun c => c.pc.inQueue && c.par.proxy == p) : Nat) ∧
+    qGet s.queueLens p =
+      (s.calls.countP (fun c => c.pc.inQueue && c.par.proxy == p) : Nat) + (s.kaHeld.count p : Nat) ∧
     0 ≤ qGet s.queueLens p ∧
-    ((∀ c ∈ s.calls, c.par.proxy = p → c.pc = .idle ∨ ∃ o, c.pc = .done o) → qGet s.queueLens p = 0) := by
+    ((∀ c ∈ s.calls, c.par.proxy = p → c.pc = .idle ∨ ∃ o, c.pc = .done o) → p ∉ s.kaHeld →
+      qGet s.queueLens p = 0) := by
   have hq := (inv_reachable hr).ql p
-  refine ⟨hq, by rw [hq]; exact Int.natCast_nonneg _, ?_⟩
-  intro h
+  refine ⟨hq, by rw [hq]; omega, ?_⟩
+  intro h hk
+  have hk0 : s.kaHeld.count p = 0 := List.count_eq_zero.mpr hk
   have : s.calls.countP (fun c => c.pc.inQueue && c.par.proxy == p) = 0 := by
     rw [List.countP_eq_zero]
     intro c hc
     by_cases hp : c.par.proxy = p
     · rcases h c hc hp with h' | ⟨o, h'⟩ <;> simp [h', Pc.inQueue]
     · simp [hp]
-  rw [hq, this]; rfl
+  rw [hq, this, hk0]; rfl
+
+/-- non-vacuity with keep-alive ticks: while proxy 0's call waits for its reply two ticks take a slot
+    (counter 3), one gives it back (2), the call times out and the other tick finishes: 0 -/
+example :
+    let cfg : Cfg := ⟨1, 100, 4, 3, 3, 5⟩
+    let pre : List Action :=
+      [CallAct.begin, .cas, .add, .pre, .selectAdp (some 0), .gate, .incQ, .store, .lockAcq, .dialOk, .enqueue].map (Action.call 0)
+    let fin : List Action := [CallAct.timeout, .decQ, .del, .post].map (Action.call 0)
+    let mid := [Action.spawn ⟨false, 0, none, none, 0⟩] ++ pre ++ [.kaCas, .kaAdd, .kaTake 0, .kaCas, .kaAdd, .kaTake 0, .kaRelease 0]
+    (run cfg (init cfg 0) mid).map (fun s => (s.queueLens, s.kaHeld)) = some ([2], [0]) ∧
+    (run cfg (init cfg 0) (mid ++ fin ++ [.kaRelease 0])).map (fun s => (s.queueLens, s.kaHeld, s.gen.issued)) =
+      some ([0], [], [3, 2, 1]) := by decide
 
 /-- non-vacuity: proxy 0's call waits for its reply while proxy 1 makes and finishes a call through the
     same adapter, then proxy 0's call times out: in between proxy 0's counter is 1 and proxy 1's is back
@@ -136,7 +157,7 @@ theorem C09_cleanup_returned {cfg : Cfg} {ctr : Int} {s : State} (hr : Reachable
 /-- Once every call has returned (or has not started), the counters are back to 0 and the
     pending-reply tables are empty — whatever happened in between. -/
 theorem C09_cleanup_quiescent {cfg : Cfg} {ctr : Int} {s : State} (hr : Reachable cfg ctr s)
-    (hq : ∀ c ∈ s.calls, c.pc = .idle ∨ ∃ o, c.pc = .done o) :
+    (hq : ∀ c ∈ s.calls, c.pc = .idle ∨ ∃ o, c.pc = .done o) (hk : s.kaHeld = []) :
     (∀ p : Nat, qGet s.queueLens p = 0) ∧ s.invokeNum = 0 ∧ s.table = [] := by
   have hI := inv_reachable hr
   have h1 : ∀ p : Nat, s.calls.countP (fun c => c.pc.inQueue && c.par.proxy == p) = 0 := by
@@ -148,7 +169,7 @@ theorem C09_cleanup_quiescent {cfg : Cfg} {ctr : Int} {s : State} (hr : Reachabl
     rw [List.countP_eq_zero]
     intro c hc
     rcases hq c hc with h | ⟨o, h⟩ <;> simp [h, Pc.inInvoke]
-  refine ⟨fun p => by rw [hI.ql p, h1 p]; rfl, by rw [hI.inv, h2]; rfl, ?_⟩
+  refine ⟨fun p => by rw [hI.ql p, h1 p, hk]; rfl, by rw [hI.inv, h2]; rfl, ?_⟩
   cases ht : s.table with
   | nil => rfl
   | cons e es =>
@@ -353,7 +374,7 @@ def zeroPrefix : List TAction :=
 def stuck (k : Nat) : TState :=
   { base := { gen := ⟨2, [2, 1]⟩,
               calls := [⟨par0, .done .timeout, 1, 0, 0⟩, ⟨par0, .enq, 2, 1, 0⟩],
-              table := [⟨0, 2, 1⟩], queueLens := [1], invokeNum := 1,
+              table := [⟨0, 2, 1⟩], queueLens := [1], kaHeld := [], invokeNum := 1,
               conns := [⟨false, false, [1]⟩], rcvs := [], emitted := [] },
     now := k, times := [⟨0, 1, 0, 0, false, 1⟩, ⟨0, 1, 0, 0, true, 0⟩] }
 
